@@ -882,7 +882,12 @@ def rule_padding_not_disabled_by_trim(col, facts):
         mins = [bb for bb, c, a, d, t in f.calls() if callee_name(c) == WF + "shared::min_exact_digits"]
         if not mins:
             continue
-        fills = [bb for bb, c, a, d, t in f.calls() if last_seg(callee_name(c)) == "fill" and any(bb in reach_from(f, m) for m in mins)]
+        def _pads(c):
+            # `fill`, or a helper of this crate that does the fill (`pad_trailing_zeros(bytes, cursor, digits, exact)`)
+            if last_seg(callee_name(c)) == "fill":
+                return True
+            return any(h.crate == f.crate and h.short != f.short and any(last_seg(callee_name(c2)) == "fill" for _b, c2, _a, _d, _t in h.calls()) for h in facts.by_short.get(callee_name(c), []))
+        fills = [bb for bb, c, a, d, t in f.calls() if _pads(c) and any(bb in reach_from(f, m) for m in mins)]
         base = f.short.replace(WF, "")
         col.check(R, base + ":padding-present", bool(fills), "no zero padding after min_exact_digits", f.loc())
         for k, fb in enumerate(fills):
